@@ -5,10 +5,13 @@ package maps
 
 // The per-name mutexes serialise callers; they have no effect on the modelled heap. Trusted: the bodies use sync.Map
 // and reference counting that the engine does not model; mutual exclusion per name is an assumption where it is used.
+// Bookkeeping for "every per-name lock taken is released on every path" (C04): mmHeld counts Lock calls minus Unlock calls.
 //@ func (*MutexMap).Lock(l, name) ()
 //@   trusted
 //@   pure
+//@   ghostset mmHeld := mmHeld + 1
 
 //@ func (*MutexMap).Unlock(l, name) (err)
 //@   trusted
 //@   pure
+//@   ghostset mmHeld := mmHeld - 1
